@@ -2,7 +2,7 @@
 props/C04_content.py): appends put exactly the given byte / block behind the old content, removals cut exactly the tail and hand
 out exactly the bytes removed."""
 import sympy as sp
-import fm, lin
+import fm, lin, alg
 from lin import Effect
 from symx import Ptr, Unsupported
 from props.C04_content import origins, eq_entailed, con, feasible, wit, K
@@ -61,6 +61,14 @@ def spec_for(name):
         return lambda st: [([], dict(final=n0 + 1, pieces=[([L(K, n0 - 1)], ('old', K)), ([L(n0, K)], ('val', 'arg_c'))], out=None))] if st == 'ok' else [([], same)]
     if b == 'catn':
         return lambda st: [([], dict(final=n0 + nb, pieces=[([L(K, n0 - 1)], ('old', K)), ([L(n0, K)], ('ext', K - n0))], out=None))] if st == 'ok' else [([], same)]
+    if b == 'cat':
+        ob = S('obj[8]')
+        return lambda st: [([], dict(final=n0 + ob, pieces=[([L(K, n0 - 1)], ('old', K)), ([L(n0, K)], ('ext', K - n0))], out=None, src=('*obj[0]', None)))] if st == 'ok' else [([], same)]
+    if b == 'cats':
+        return lambda st: [([], dict(final=('strlen', 'src1'), pieces=[([L(K, n0 - 1)], ('old', K)), ([L(n0, K)], ('ext', K - n0))], out=None, src=('src1', None)))] if st == 'ok' else [([], same)]
+    if b in ('rtrim', 'ltrim', 'trim'):
+        # the result is a contiguous piece of the old content: final <= old length, position pos holds old[pos + s] for the shift s the code uses
+        return lambda st: [([], dict(final='substring', pieces=None, out=None))]
     if b == 'getn':
         def g(st):
             out = []
@@ -76,7 +84,7 @@ def spec_for(name):
 def status_of(lf, dom, name):
     r = lf.ret
     b = name[len('a_str_'):].rstrip('_')
-    if b in ('getn', 'getc'):
+    if b in ('getn', 'getc', 'rtrim', 'ltrim', 'trim'):
         return 'ok'
     if b == 'catc':
         c = dom.concrete(r) if r is not None else None
@@ -114,9 +122,48 @@ def check(fn, name, dom, leaves, facts0, off, rep):
                 if not feasible(cons):
                     continue
                 nq += 1
-                if not eq_entailed(cons, fin, sp_['final'], kenv):
-                    probs.append(('length', 'length becomes %s, the abstract string has %s bytes' % (fin, sp_['final'])))
+                if sp_['final'] == 'substring':
+                    copies = [o for o in ops if o[0] == 'copy']
+                    if len(copies) > 1 or any(o[2][0] != 'st' or sp.expand(o[1]) != 0 for o in copies):
+                        probs.append(('content', 'the content is rearranged by %s, expected at most one move of the kept bytes to the front' % (copies,)))
+                        continue
+                    shift = sp.sympify(copies[0][2][1]) if copies else sp.Integer(0)
+                    ok_len = True
+                    for goal in (fm.le(0, shift), fm.le(shift + fin, S('num_'))):
+                        try:
+                            if not fm.entails(cons, con(goal, kenv)):
+                                ok_len = False
+                        except fm.NonLinear:
+                            ok_len = False
+                    if not ok_len:
+                        probs.append(('length', 'the kept piece [%s, %s + %s) is not inside the old content of %s bytes' % (shift, shift, fin, S('num_'))))
+                        continue
+                    if copies and not eq_entailed(cons, copies[0][3], fin, kenv):
+                        probs.append(('content', 'the move brings %s bytes to the front, the new length is %s' % (copies[0][3], fin)))
+                        continue
+                    c2 = cons + [con(fm.le(0, K), kenv), con(fm.le(K, fin - 1), kenv)]
+                    if feasible(c2):
+                        for c3, got in origins(K, [o[:4] for o in ops], c2, kenv):
+                            nq += 1
+                            if got[0] != 'old' or not eq_entailed(c3, got[1], K + shift, kenv):
+                                probs.append(('content', 'byte pos of the result is %s[%s], expected old[pos + %s]' % (got[0], got[1], shift)))
                     continue
+                want_final = sp_['final']
+                if isinstance(want_final, tuple) and want_final[0] == 'strlen':
+                    # the length appended is strlen of the string argument
+                    lens = [n_ for n_, a_ in getattr(dom, 'strlen_of', {}).items() if isinstance(a_, Ptr) and a_.base == want_final[1] and sp.expand(a_.off) == 0]
+                    if len(lens) != 1:
+                        probs.append(('length', 'the length of the C string argument is not taken with strlen(str) (%s)' % (getattr(dom, 'strlen_of', {}),)))
+                        continue
+                    want_final = S('num_') + lens[0]
+                if not eq_entailed(cons, fin, want_final, kenv):
+                    probs.append(('length', 'length becomes %s, the abstract string has %s bytes' % (fin, want_final)))
+                    continue
+                if sp_.get('src') is not None:
+                    for o in ops:
+                        if o[0] == 'copy' and o[2][0] == 'ext' and (len(o) < 5 or o[4] != sp_['src'][0]):
+                            probs.append(('content', 'the appended bytes come from %s, expected from %s' % (o[4] if len(o) > 4 else '?', sp_['src'][0])))
+                sp_ = dict(sp_, final=want_final)
                 for pconds, want in sp_['pieces']:
                     c2 = cons + [con(fm.le(0, K), kenv), con(fm.le(K, sp_['final'] - 1), kenv)] + [con(c, kenv) for c in pconds]
                     if not feasible(c2):
@@ -146,3 +193,111 @@ def check(fn, name, dom, leaves, facts0, off, rep):
         rep.unk('K2', name, '; '.join(sorted(set(unk))[:2])[:300], loc=loc)
     else:
         rep.ok('K2', name, 'length, origin of every byte of the result and the bytes handed out agree with the abstract string operation (%d symbolic queries)' % nq, loc=loc)
+
+
+# ---------------------------------------------------------------- K3: one arbitrary iteration of the trim loops
+def _membership(dom, c):
+    """path condition c is a membership test of a content byte: -> (position of the byte, True when the byte is IN the set, kind, test arguments) or None"""
+    if not isinstance(c, alg.Cond):
+        return None
+    loaded = getattr(dom, 'loaded', {})
+    a, b = sp.sympify(c.a), sp.sympify(c.b)
+    if b != 0 or c.rel() not in ('==', '!='):
+        return None
+    nonzero = c.rel() == '!='
+    name = str(a)
+    if a.is_Symbol and name.startswith('&memchr'):
+        args = getattr(dom, 'memchr_args', {}).get(name[1:])
+        if args is None:
+            return None
+        byte = sp.sympify(args[1])
+        if byte not in loaded or loaded[byte][0] != '*ptr_':
+            raise Unsupported('memchr is not applied to a byte of the content (%s)' % (byte,))
+        return (sp.sympify(loaded[byte][1]), nonzero, 'memchr', (args[0], args[2]))
+    fs = [f for f in a.atoms(sp.Function) if f.func.__name__ == 'i_and']
+    if fs and a == fs[0]:
+        tab = [x for x in fs[0].args if x in loaded and str(loaded[x][0]).startswith('*ctype_loc')]
+        if not tab:
+            return None
+        idx2 = sp.sympify(loaded[tab[0]][1])          # 2 * byte (table of 16-bit entries)
+        byte = sp.expand(idx2 / 2)
+        if byte not in loaded or loaded[byte][0] != '*ptr_':
+            raise Unsupported('the character class test is not applied to a byte of the content (%s)' % (byte,))
+        return (sp.sympify(loaded[byte][1]), nonzero, 'isspace', None)
+    return None
+
+
+def trim_steps(fn, name, dom, leaves, loop_leaves, off, rep):
+    """rtrim: while the string is not empty and its LAST byte (position length - 1) is in the set, the length drops by exactly one;
+    ltrim: while the cursor i is inside the string and the byte AT i is in the set, the cursor advances by exactly one - both with the
+    caller-supplied set (s, n) resp. the space class when n is 0.  Together with K2 (the kept piece is old[shift, shift + length)) this makes
+    the result the old content without the maximal run of set bytes at that end."""
+    loc = fn.loc(fn.entry.instrs[0])
+    right = 'rtrim' in name
+    numk = ('ctx', off['num_'])
+    probs, n = [], 0
+    SW = dom.strip_wrap
+    for lf in loop_leaves:
+        n += 1
+        tests = [m for m in (_membership(dom, c) for c in lf.pc) if m is not None]
+        if len(tests) != 1 or not tests[0][1]:
+            probs.append('an iteration continues after %d membership tests (%s)' % (len(tests), lf.pc))
+            continue
+        pos, _, kind, targs = tests[0]
+        if kind == 'memchr':
+            sset, cnt = targs
+            if not (isinstance(sset, Ptr) and sset.base == 'src1' and sp.expand(sset.off) == 0 and sp.sympify(cnt) == sp.Symbol('arg_n', integer=True, nonnegative=True)):
+                probs.append('the set searched is (%s, %s), expected the arguments (s, n)' % (sset, cnt))
+        if right:
+            # length at the head of the iteration: the value tested against 0
+            Ls = [sp.sympify(c.a) for c in lf.pc if isinstance(c, alg.Cond) and c.rel() == '!=' and sp.sympify(c.b) == 0 and _membership(dom, c) is None
+                  and not str(c.a).startswith('arg_')]
+            if len(Ls) != 1:
+                probs.append('no test "length != 0" in front of the byte test (%s)' % (lf.pc,))
+                continue
+            Lh = SW(Ls[0])
+            if sp.expand(SW(pos) - (Lh - 1)) != 0:
+                probs.append('the byte tested is at position %s, expected the last one (%s)' % (pos, sp.expand(Lh - 1)))
+            nv = lf.store.get(numk)
+            if nv is None or sp.expand(SW(nv[0]) - (Lh - 1)) != 0:
+                probs.append('the length becomes %s, expected %s' % (nv[0] if nv else 'unchanged', sp.expand(Lh - 1)))
+        else:
+            ints = {k: v for k, v in lf.loop_cur.items() if not isinstance(v, Ptr)}
+            ptrs = {k: v for k, v in lf.loop_cur.items() if isinstance(v, Ptr)}
+            if len(ints) != 1:
+                raise Unsupported('the left trim loop does not carry one counter')
+            (ik, iv), = ints.items()
+            inside = any(isinstance(c, alg.Cond) and ((c.rel() == '<' and sp.expand(SW(c.a) - SW(iv)) == 0 and sp.sympify(c.b) == S('num_')) or
+                                                        (c.rel() == '>' and sp.expand(SW(c.b) - SW(iv)) == 0 and sp.sympify(c.a) == S('num_'))) for c in lf.pc)
+            if not inside:
+                probs.append('the byte is tested without the test counter < length (%s)' % (lf.pc,))
+            if sp.expand(SW(pos) - SW(iv)) != 0:
+                probs.append('the byte tested is at position %s, expected the cursor %s' % (pos, iv))
+            for pk, pv in ptrs.items():
+                if not (pv.base == '*ptr_' and sp.expand(SW(pv.off) - SW(iv)) == 0):
+                    probs.append('the byte cursor is at %s while the counter is %s' % (pv, iv))
+                nx = lf.loop_next.get(pk)
+                if not (isinstance(nx, Ptr) and nx.base == '*ptr_' and sp.expand(SW(nx.off) - SW(iv) - 1) == 0):
+                    probs.append('the byte cursor advances to %s, expected one byte on' % (nx,))
+            nx = lf.loop_next.get(ik)
+            if nx is None or sp.expand(SW(nx) - SW(iv) - 1) != 0:
+                probs.append('the counter becomes %s, expected %s + 1' % (nx, iv))
+            if numk in lf.store:
+                probs.append('the left trim loop changes the length')
+    # exits: the loop is left because the bound is reached or because the byte at the SAME position is not in the set
+    ne = 0
+    for lf in leaves:
+        tests = [m for m in (_membership(dom, c) for c in lf.pc) if m is not None]
+        for pos, isin, kind, targs in tests:
+            ne += 1
+            if isin:
+                probs.append('a path leaves the function behind a positive membership test')
+    if n < 2:
+        raise Unsupported('%d iteration paths of trim loops found, expected the set variant and the space variant' % n)
+    if probs:
+        rep.bad('K3', name, '; '.join(sorted(set(probs))[:3])[:600], loc=loc, key='%s: trim step' % name)
+    else:
+        rep.ok('K3', name, ('the byte tested is the last one (position length - 1) and the length drops by one per iteration' if right else
+                            'the byte tested is the one at the cursor, inside the string, and cursor and counter advance by one per iteration') +
+               '; the set is (s, n) resp. the space class; the loop is left only on a negative test or at the bound (%d iteration paths, %d exits with a test)' % (n, ne),
+               loc=loc, sample={'fn': name, 'iterations': n, 'exits': ne})
